@@ -61,8 +61,16 @@ Definition host_of (i : string) : string :=
   end.
 
 (* ---- types ---- *)
+(* the name the value is decoded under: a single name, or - for an array of names - the first one that is a type of the
+   vocabularies (the JSON resolver walks the names in order) *)
+Definition first_known (known : string -> bool) (l : list json) : option string :=
+  match find (fun e => match e with JStr s => known s | _ => false end) l with Some (JStr s) => Some s | _ => None end.
 Definition jtype (o : json) : option string :=
-  match jget "type" o with Some (JStr s) => Some s | _ => None end.
+  match jget "type" o with
+  | Some (JStr s) => Some s
+  | Some (JArr l) => first_known (fun s => mem s (type_names T)) l
+  | _ => None
+  end.
 Definition type_name (o : json) : string := match jtype o with Some s => s | None => "" end.
 Definition known_type (s : string) : bool := mem s (type_names T).
 Definition has_prop (ty p : string) : bool :=
@@ -149,13 +157,13 @@ Fixpoint strip_nulls (fuel : nat) (j : json) : json :=
   | S f =>
       match j with
       | JObj m =>
-          match assoc "type" m with
-          | Some (JStr ty) =>
+          match jtype j with
+          | Some ty =>
               if known_type ty then
                 JObj (map (fun kv => (fst kv, strip_nulls f (snd kv)))
                           (filter (fun kv => negb (match snd kv with JNull => known_key ty (fst kv) | _ => false end)) m))
               else j
-          | _ => j
+          | None => j
           end
       | JArr l => JArr (map (strip_nulls f) l)
       | _ => j
@@ -175,6 +183,7 @@ Definition to_type (j : json) : res json :=
       match jget "type" j with
       | None => Err EGeneric
       | Some (JStr s) => if jhas "@context" j then (if known_type s then Ok (strip_nulls (S (jdepth0 j)) j) else Err EUnmatchedType) else Err EGeneric
+      | Some (JArr l) => if jhas "@context" j then (match first_known known_type l with Some _ => Ok (strip_nulls (S (jdepth0 j)) j) | None => Err EUnmatchedType end) else Err EGeneric
       | Some _ => Err EUnmatchedType
       end
   | _ => Err EGeneric
